@@ -8,14 +8,23 @@ package replicationcontroller
 @*/
 /*@ immutable types/replicationcontroller.subscription.parent types/replicationcontroller.subscription.outch types/replicationcontroller.subscription.cache
   types/replicationcontroller.cache.parent types/replicationcontroller.controller.parent types/replicationcontroller.controller.cache types/replicationcontroller.filterController.filterParent
-  types/replicationcontroller.filterSubscription.filterParent
+  types/replicationcontroller.filterSubscription.filterParent types/replicationcontroller.filterController.controller
 @*/
 /*@ nonblocking-send types/replicationcontroller.subscription.outch
 @*/
 
 /*@ theory replicationcontrollertyped
 ;; theory lists wiring
-;; uses types/replicationcontroller.event
+;; uses types/replicationcontroller.event types/replicationcontroller.controller
+(declare-fun |F!types/replicationcontroller.filterController!controller| (V) |S!types/replicationcontroller.controller|)
+(assert (forall ((c V)) (! (=> (= (dyntype c) |ty!*types/replicationcontroller.filterController|)
+                               (not (= (|types/replicationcontroller.controller.parent| (|F!types/replicationcontroller.filterController!controller| c)) vnil)))
+                          :pattern ((|F!types/replicationcontroller.filterController!controller| c)))))
+(declare-fun |F!types/replicationcontroller.controller!parent| (V) V)
+; object invariant of the typed controllers (they are only built by newController / newFilterController,
+; whose precondition is a non-nil parent; the field is immutable)
+(assert (forall ((c V)) (! (=> (or (= (dyntype c) |ty!*types/replicationcontroller.controller|) (= (dyntype c) |ty!*types/replicationcontroller.filterController|))
+                               (not (= (|F!types/replicationcontroller.controller!parent| c) vnil))) :pattern ((|F!types/replicationcontroller.controller!parent| c)))))
 (define-fun isT ((o V)) Bool (and (not (= o vnil)) (= (dyntype o) |ty!*core/v1.ReplicationController|)))
 (declare-fun tevt-type (V) Str)
 (declare-fun tevt-res (V) V)
@@ -239,6 +248,23 @@ package replicationcontroller
   at call(Refilter) assert [refilters-the-untyped-subscription-with-the-given-filter] (and (= $recv {s.filterParent}) (= $0 {f}))
 @*/
 
+/*@ func types/replicationcontroller.NewMonitor
+  props C20 C16
+  theory replicationcontrollertyped
+  allow panic
+  note NewMonitor panics for a Publisher that is not one of this package's controllers (documented in the code)
+  requires (and (not (= {publisher} vnil)) (not (= {handler} vnil)))
+  at call(OnInitialize) assert [initialize-adapter] (= (closureOf $0) "types/replicationcontroller.NewMonitor$1")
+  at call(OnCreate) assert [create-adapter-calls-oncreate] (= (closureOf $0) "types/replicationcontroller.NewMonitor$2")
+  at call(OnUpdate) assert [update-adapter-calls-onupdate] (= (closureOf $0) "types/replicationcontroller.NewMonitor$3")
+  at call(OnDelete) assert [delete-adapter-calls-ondelete] (= (closureOf $0) "types/replicationcontroller.NewMonitor$4")
+  ensures (=> (= result1 vnil) (not (= result0 vnil)))
+@*/
+/*@ func types/replicationcontroller.BuildHandler
+  props C20
+  fresh result
+  ensures (not (= result vnil))
+@*/
 /*@ func types/replicationcontroller.NewMonitor$1
   props C20 C16
   theory replicationcontrollertyped
